@@ -33,6 +33,8 @@ def palettes(ctx):
             continue
         pals.append(dict(zip([-1, 0, 1, 2, 3], xs)))
     pals.append({-1: -math.inf, 0: -2.5, 1: 0.1, 2: 7.25, 3: math.inf})
+    # values that differ from a bound of the range by less than the library's comparison tolerance (0.001), on either side
+    pals.append({-1: -0.0004, 0: 0.0, 1: 0.9996, 2: 1.0, 3: 1.0004})
     # ranges whose width is not a finite double: one infinite bound (nothing lies beyond it: behaviours that need that rank
     # are not instantiated on the palette), and a finite range wider than the largest double
     pals.append({-1: -3.0, 0: 0.0, 1: 5.0, 2: math.inf})
